@@ -24,8 +24,27 @@ def setup():
     simlib.nsim_bin()
 
 
-def scope(sc, graph, mode, args, generator, log_paths=(), deps_paths=()):
-    """-> (allowed set, required set) of paths"""
+def dyndep_files_not_loadable(sc, world):
+    """dyndep files the Cleaner cannot (fully) load: absent, or written for another set of statements than the
+    manifest now has (ninja rejects a dyndep file that names an output without a build statement, or that does not
+    mention a statement bound to it; it then cleans 'as much of the graph as it knows')"""
+    bad = set()
+    for s in sc["stmts"]:
+        if s["kind"] != "scan":
+            continue
+        p = s["outs"][0]
+        if p not in world:
+            bad.add(p)
+            continue
+        mentioned = {l.split(":")[0].split()[1] for l in world[p][1].splitlines() if l.startswith("build ")}
+        bound = {t["outs"][0] for t in sc["stmts"] if t.get("dyndep") == p}
+        if mentioned != bound:
+            bad.add(p)
+    return bad
+
+
+def scope1(sc, graph, mode, args, generator, log_paths=()):
+    """paths in scope for one view of the graph"""
     def files_of(s):
         r = set(graph.outs(s))
         if s["depfile"] and s["deps"] != "msvc":
@@ -64,7 +83,18 @@ def scope(sc, graph, mode, args, generator, log_paths=(), deps_paths=()):
         for p in log_paths:
             if p not in produced and p not in inputs:
                 allowed.add(p)
-    return allowed, set(allowed)
+    return allowed
+
+
+def scope(sc, sources, mode, args, generator, log_paths, unloaded):
+    """-> (allowed set, required set) of paths.  What dyndep files that cannot be loaded would have said may or may
+    not be known to the Cleaner (a rejected file is applied up to the statement it is rejected for): paths that are in
+    scope only with / only without that information may be removed but need not be."""
+    full = scope1(sc, model.Graph(sc, sources), mode, args, generator, log_paths)
+    if not unloaded:
+        return full, set(full)
+    part = scope1(sc, model.Graph(sc, sources, unloaded=unloaded), mode, args, generator, log_paths)
+    return full | part, full & part
 
 
 def run(ctx):
@@ -188,7 +218,10 @@ def judge(ctx, scn, scs, ci, results):
         if lp.endswith(".ninja_log"):
             log_paths = [k.decode("latin-1") for k in parse_build_log(bytes.fromhex(hx))[1]]
     mode = step["mode"]
-    allowed, required = scope(sc, graph, mode, step["args"], step["generator"], log_paths)
+    unloaded = dyndep_files_not_loadable(sc, world)
+    if unloaded:
+        ctx.count("cleans_with_unloadable_dyndep_file")
+    allowed, required = scope(sc, srcs, mode, step["args"], step["generator"], log_paths, unloaded)
     sources = set(sc["sources"]) | {"build.ninja"}
     phony_names = {o for s in sc["stmts"] if s["kind"] == "phony" for o in s["outs"]}
     gen_outs = {o for s in sc["stmts"] if s["generator"] for o in all_outs(s)}
@@ -202,7 +235,7 @@ def judge(ctx, scn, scs, ci, results):
         if removed:
             ctx.violation("C18/dry-run-removed", "%s (dry run) removed %s" % (desc, sorted(removed)), rep)
             return
-        if tr["result"].get("cleaned") != len(existing_in_scope):
+        if not len(existing_in_scope) <= tr["result"].get("cleaned", -1) <= len({p for p in allowed if p in world}):
             extra = ""
             ctx.violation("C18/dry-run-count/%s" % mode, "%s (dry run) reported %s files, %d existing files are in scope (%s)" %
                           (desc, tr["result"].get("cleaned"), len(existing_in_scope), sorted(existing_in_scope)), rep)
